@@ -25,16 +25,17 @@ def linkEq (a b : BareItem) : Bool := equals parseOpt b.id a.id false
 def parseBare (i : Nat) (j : Json) : R BareItem := do
   return { idx := i, shape := ← strF j "shape", id := utf8 (← strF j "id"), typ := utf8 (← strF j "typ") }
 
-def parseCollOp (pool : Array BareItem) (j : Json) : R (Op BareItem) := do
+def parseCollOp (pool : Array BareItem) (j : Json) : R (List (Op BareItem)) := do
   let get (x : Json) : R BareItem := do
     match pool[(← nat x)]? with
     | some b => return b
     | none => throw "pool index"
   match ← arr j with
-  | [Json.str "append", x] => return .append (← get x)
-  | [Json.str "contains", x] => return .contains (← get x)
-  | [Json.str "remove", x] => return .remove (← get x)
-  | [Json.str "count"] => return .count
+  | [Json.str "append", x] => return [.append (← get x)]
+  | [Json.str "append3", x, y] => return [.append (← get x), .append (← get y), .append (← get x)]   -- one variadic call
+  | [Json.str "contains", x] => return [.contains (← get x)]
+  | [Json.str "remove", x] => return [.remove (← get x)]
+  | [Json.str "count"] => return [.count]
   | _ => throw "coll op"
 
 def renderCollOut : Out → Json
@@ -50,7 +51,7 @@ def opColl (j : Json) : R Json := do
     match pool[(← nat x)]? with
     | some b => pure b
     | none => throw "pool index")
-  let ops ← (← arrF j "ops").mapM (parseCollOp pool)
+  let ops := (← (← arrF j "ops").mapM (parseCollOp pool)).flatten
   let eq := if kind == "IRIs" then linkEq else bareEq
   let start := init.foldl (fun l x => append eq l x) []   -- the harness builds the initial collection with Append
   let (final, outs) := run eq start ops
